@@ -316,6 +316,10 @@ class ArgMaxIdx(SInt):
 def round_half_even_real(v):
     """round-half-to-even of a real term, as an Int-valued real"""
     Z = core.Z
+    if isinstance(v, core.SFP):
+        return v.rint()
+    if isinstance(v, (SInt, int)):
+        return v
     if isinstance(v, core.SDyad):
         c = ctx()
         lim = (1 << 53) * v.den
